@@ -28,6 +28,7 @@ type World struct {
 	heapSorts map[string]string // heap variable -> SMT sort
 
 	assumptions map[string]bool // assumption inventory (reported in evidence)
+	unresolved  map[string]string // constants standing for clauses that could not be evaluated -> why
 	uncontracted map[string]bool
 	libUsed map[string]bool
 
@@ -74,7 +75,7 @@ func newWorld(P *Program) *World {
 func newWorld0(P *Program) *World {
 	return &World{P: P, structs: map[string]*StructSort{}, bySortName: map[string]*StructSort{}, boxed: map[string]bool{},
 		typeIDs: map[string]int{}, ufuncs: map[string]*UFunc{}, usorts: map[string]bool{},
-		heapSorts: map[string]string{}, axiomsUsed: map[string]bool{}, assumptions: map[string]bool{}, uncontracted: map[string]bool{}, libUsed: map[string]bool{}}
+		heapSorts: map[string]string{}, axiomsUsed: map[string]bool{}, assumptions: map[string]bool{}, unresolved: map[string]string{}, uncontracted: map[string]bool{}, libUsed: map[string]bool{}}
 }
 
 func (w *World) typeID(t types.Type) int {
